@@ -1,6 +1,7 @@
 package main
 
 import (
+	"crypto/elliptic"
 	"encoding/hex"
 	"fmt"
 	"math"
@@ -422,34 +423,83 @@ func (h *H) txCases() {
 			}
 			mock.CurrentArbitrators = append(mock.CurrentArbitrators, a)
 		}
+		// independent oracles: which arbiter keys are curve points, the aggregate key and its redeem script
+		curve := elliptic.P256()
+		valid := make([]string, c.n)
+		pts := make([][2]*big.Int, c.n)
+		for j := 0; j < c.n; j++ {
+			nk := mock.CurrentArbitrators[j].GetNodePublicKey()
+			x, y := elliptic.UnmarshalCompressed(curve, nk)
+			valid[j] = "0"
+			if x != nil {
+				valid[j], pts[j] = "1", [2]*big.Int{x, y}
+			}
+		}
+		var sx, sy *big.Int
+		for _, sgn := range c.signers {
+			if int(sgn) >= c.n || pts[sgn][0] == nil {
+				break
+			}
+			if sx == nil || (sx.Sign() == 0 && sy.Sign() == 0) {
+				sx, sy = pts[sgn][0], pts[sgn][1]
+			} else {
+				sx, sy = curve.Add(sx, sy, pts[sgn][0], pts[sgn][1])
+			}
+		}
+		agg := make([]byte, 33)
+		agg[0] = 2
+		if sx != nil && !(sx.Sign() == 0 && sy.Sign() == 0) {
+			agg = elliptic.MarshalCompressed(curve, sx, sy)
+		}
+		aggOK := false
+		var redeem []byte
+		if pub, err := crypto.DecodePoint(agg); err == nil {
+			if enc, err := pub.EncodePoint(true); err == nil {
+				aggOK, redeem = true, schCode(enc)
+			}
+		}
+		// programs: the redeem script itself, other Schnorr codes, other shapes
+		var progs []*program.Program
+		var codes [][]byte
+		for j := h.rng.Intn(3); j > 0; j-- {
+			var code []byte
+			switch h.rng.Intn(4) {
+			case 0:
+				code = schCode(h.randKey())
+			case 1:
+				code = stdCode(h.randKey())
+			default:
+				code = cp(redeem)
+			}
+			progs = append(progs, &program.Program{Code: code, Parameter: []byte{}})
+			codes = append(codes, code)
+		}
 		pld := &payload.WithdrawFromSideChain{Signers: c.signers}
-		tx := transaction.CreateTransaction(common2.TxVersion09, common2.WithdrawFromSideChain, 2, pld, nil, nil, nil, 0, nil)
+		tx := transaction.CreateTransaction(common2.TxVersion09, common2.WithdrawFromSideChain, 2, pld, nil, nil, nil, 0, progs)
 		sgInts := make([]int, len(c.signers))
 		for j, x := range c.signers {
 			sgInts[j] = int(x)
 		}
-		in := map[string]interface{}{"arbiters": c.n, "signers": sgInts, "validate": c.validate}
+		in := map[string]interface{}{"arbiters": c.n, "signers": sgInts, "validate": c.validate, "codes": zllHex(codes)}
 		if c.advKey != nil {
 			in["arbiter0_node_key"], in["note"] = hx(c.advKey), c.note
 		}
 		out := h.call("transaction.checkSchnorrWithdrawFromSidechain", in, func() bool {
-			err := transaction.CheckSchnorrWithdrawFromSidechainVerif(tx, pld, c.validate)
-			// only the signer loop is modelled: errors of the later key aggregation count as passed
-			return err == nil || !strings.Contains(err.Error(), "signer index")
+			return transaction.CheckSchnorrWithdrawFromSidechainVerif(tx, pld, c.validate) == nil
 		})
-		arbs := make([]string, c.n)
-		for j := range arbs {
-			arbs[j] = fmt.Sprint(j)
-		}
 		sgs := make([]string, len(c.signers))
 		for j, s := range c.signers {
 			sgs[j] = fmt.Sprint(s)
 		}
 		i := h.next()
-		h.sh.Add(fmt.Sprintf("CSigners %d %s %s %s %d", i, lib.CoqBool(c.validate), lib.CoqList(arbs), lib.CoqList(sgs), out))
+		h.sh.Add(fmt.Sprintf("CWithdraw %d %s %s %s %s %s %s %d", i, lib.CoqBool(c.validate), lib.CoqList(valid), lib.CoqList(sgs),
+			lib.CoqBool(aggOK), zl(redeem), zll(codes), out))
 		in["out"] = out
 		h.st.LogCase(h.run.Out, i, in)
-		h.st.Count(fmt.Sprintf("signers:%d:%v:%v:%x", c.n, c.signers, c.validate, c.advKey), len(c.signers) > 0, "CSigners")
+		h.st.Count(fmt.Sprintf("withdraw:%d:%v:%v:%x:%d:%d", c.n, c.signers, c.validate, c.advKey, len(codes), out), len(c.signers) > 0, "CWithdraw")
+		if out == 0 {
+			h.st.Hist["CWithdraw accepted"]++
+		}
 	}
 
 	// ---- coinbase outputs: sanity (CheckTransactionOutput) and context
@@ -608,6 +658,9 @@ func (h *H) txCases() {
 		}
 	}
 	params.PublicDPOSHeight = 1000
+
+	h.crossChainV0Cases(params, chain)
+	h.returnSideChainDepositCases(params, st)
 
 	// ---- ReturnDepositCoin.SpecialContextCheck: producer key = code or code[1:len-1]
 	for i := 0; i < h.run.N(40, 1500); i++ {
